@@ -7,7 +7,8 @@ import ast
 import re
 
 from .. import regexlang as rx
-from ..astutil import call_attr, calls_in, unparse, walk_local
+from ..astutil import call_attr, calls_in, guard_facts, unparse, walk_local
+from ..dataflow import resolved_text
 from ..cfg import CFG
 from ..report import Finding, Report
 from ..rx_extract import class_regex, module_regex
@@ -262,11 +263,61 @@ def check_order_and_scope(idx: Index, rep: Report) -> None:
         r.fail(e_.fq, Finding("C04.R6", e_.fq, "scope-tables", f"enter_scope pushes {pushed} but exit_scope pops {popped}", e_.loc))
 
 
+def check_forward_refs(idx: Index, rep: Report) -> None:
+    """A value used before its textual definition is represented by ONE placeholder per (name, index) that
+    the definition later replaces; a second placeholder for the same key orphans the first (its users keep a
+    dangling operand).  Same for forward-referenced blocks."""
+    r = rep.rule("C04.R7", "a fresh forward-reference placeholder is stored only when none is registered for the same (name, index): the store is dominated by the absence test, or done with setdefault", floor=2)
+    f = idx.func(PARSER, "Parser.resolve_operand")
+    fn = f.node
+    stores = []
+    for st in walk_local(fn):
+        if isinstance(st, ast.Assign) and isinstance(st.targets[0], ast.Subscript):
+            cfg = CFG(fn)
+            val = resolved_text(cfg, st.value, cfg.node_of(st))
+            if "ForwardDeclaredValue(" in val:
+                stores.append(st)
+    sd = [c for c in calls_in(fn) if call_attr(c) == "setdefault" and len(c.args) == 2 and "ForwardDeclaredValue(" in unparse(c.args[1])]
+    if not stores and not sd:
+        raise AnalysisError(f"{f.fq}: no store of a ForwardDeclaredValue placeholder found")
+    for st in stores:
+        key = unparse(st.targets[0].slice)  # type: ignore[attr-defined]
+        ok = False
+        for t, pol in guard_facts(fn, st):
+            if pol:
+                continue
+            atoms = t.values if isinstance(t, ast.BoolOp) and isinstance(t.op, ast.And) else [t]
+            has_idx = any(isinstance(a, ast.Compare) and isinstance(a.ops[0], ast.In) and unparse(a.left) == key and "forward_ssa_references" in unparse(a.comparators[0]) for a in atoms)
+            others_ok = all((isinstance(a, ast.Compare) and isinstance(a.ops[0], ast.In) and "forward_ssa_references" in unparse(a.comparators[0])) for a in atoms)
+            if has_idx and others_ok:
+                ok = True
+        if ok:
+            r.ok(f.fq, f"{f.module.relpath}:{st.lineno} placeholder stored only when `{key}` is not yet a forward reference")
+        else:
+            r.fail(f.fq, Finding("C04.R7", f.fq, "placeholder-overwrite", f"`{unparse(st)}` stores a fresh placeholder without first testing whether `{key}` is already a forward reference of this name: a value used twice before its definition gets two placeholders, only the last one is replaced at the definition, and the first use keeps a dangling operand", f"{f.module.relpath}:{st.lineno}"))
+    for c in sd:
+        r.ok(f.fq, f"{f.module.relpath}:{c.lineno} placeholder registered with setdefault")
+    # blocks: a forward-referenced block is created once per name
+    g = idx.func(PARSER, "Parser._get_block_from_name")
+    gfn = g.node
+    bstores = [st for st in walk_local(gfn) if isinstance(st, ast.Assign) and isinstance(st.targets[0], ast.Subscript) and "blocks" in unparse(st.targets[0].value)]
+    if not bstores:
+        raise AnalysisError(f"{g.fq}: store into the block table not found")
+    for st in bstores:
+        key = unparse(st.targets[0].slice)  # type: ignore[attr-defined]
+        ok = any(isinstance(t, ast.Compare) and len(t.ops) == 1 and unparse(t.left) == key and "blocks" in unparse(t.comparators[0]) and ((isinstance(t.ops[0], ast.NotIn) and pol) or (isinstance(t.ops[0], ast.In) and not pol)) for t, pol in guard_facts(gfn, st))
+        if ok:
+            r.ok(g.fq, f"{g.module.relpath}:{st.lineno} block created only when `{key}` is not in the table")
+        else:
+            r.fail(g.fq, Finding("C04.R7", g.fq, "block-overwrite", f"`{unparse(st)}` replaces the block registered for `{key}`: earlier successors keep pointing at an orphaned block", f"{g.module.relpath}:{st.lineno}"))
+
+
 def check(idx: Index, rep: Report, tier: str) -> str:
     rep.run(check_names, idx, rep)
     rep.run(check_ident_or_string, idx, rep)
     rep.run(check_sections, idx, rep)
     rep.run(check_order_and_scope, idx, rep)
+    rep.run(check_forward_refs, idx, rep)
     return (
         "Regular-language analysis (inclusion / intersection-emptiness with shortest witness, right quotient) between "
         "the name-hint pattern of xdsl/ir/core.py, the image of extract_valid_name, the printer's naming scheme and the "
